@@ -1,5 +1,5 @@
 (* C07 driver.  One case per line:
-     case TAB v_rm TAB v_init TAB path(,) TAB names(,);versions(,);tags(,) TAB proc|proc|...
+     case TAB v_rm TAB v_init TAB path(,) TAB names(,);versions(,);tags(,);flavors(,) TAB proc|proc|...
    proc = P;loc;flavor;crash;q;op&op&...      crash = ~ or i,g,b     q = 0/1
         | X;loc;stack;flavor                  an outside deletion of a cache file
    op   = an operation in the format of the C06 driver, or  DC,loc,stack,flavor
@@ -97,8 +97,8 @@ let handle (f : Stdlib.String.t array) : Stdlib.String.t =
   | "case" ->
     let vr = { v_rm = bool_of_field f.(1); v_init = bool_of_field f.(2) } in
     let path = dec_strlist ',' f.(3) in
-    let univ = (match Stdlib.String.split_on_char ';' f.(4) with
-        | [a; b; c] -> (path, dec_strlist ',' a, dec_strlist ',' b, dec_strlist ',' c)
+    let (univ, allfl) = (match Stdlib.String.split_on_char ';' f.(4) with
+        | [a; b; c; d] -> ((path, dec_strlist ',' a, dec_strlist ',' b, dec_strlist ',' c), dec_strlist ',' d)
         | _ -> failwith "bad universe") in
     let w = ref (init_world path) in
     let segs = Stdlib.List.map (fun ps ->
@@ -118,7 +118,8 @@ let handle (f : Stdlib.String.t array) : Stdlib.String.t =
           let ((w', m), ocs) = run_proc_S vr !w p in
           w := w';
           let crashed = Stdlib.List.exists (fun o -> o = OCrashed) ocs in
-          let ans = if a.(4) = "1" && not crashed then answers univ (uniq_l (fallbacks fl)) w' m else "" in
+          (* every flavor of the universe is asked about, consulted by this instance or not *)
+          let ans = if a.(4) = "1" && not crashed then answers univ (uniq_l (fallbacks fl @ allfl)) w' m else "" in
           cat "#" [cat "," (Stdlib.List.map show_outcome ocs); show_records w'; show_pickles w';
                    (if crashed then "" else show_loaded m); ans]
         | _ -> failwith "bad proc") (split_sep '|' f.(5)) in
